@@ -363,8 +363,21 @@ func init() {
 		a, st1 := x.eval(n.Args[0], st)
 		b, st2 := x.eval(n.Args[1], st1)
 		d, st3 := x.eval(n.Args[2], st2)
-		x.c.usesStr = true
-		x.c.declareFun("str!replaceAll", []string{SStr, SStr, SStr}, SStr)
+		c := x.c
+		c.usesStr = true
+		cb, okb := x.constOf(n.Args[1])
+		cd, okd := x.constOf(n.Args[2])
+		if okb && okd && len(constant.StringVal(cb)) == 1 && len(constant.StringVal(cd)) == 1 {
+			// one byte replaced by one byte: exact, bytewise
+			from, to := constant.StringVal(cb)[0], constant.StringVal(cd)[0]
+			r := c.fresh("replaced", SStr)
+			src := a.(Sc).T
+			c.assumeDef(tEq(app("slen", r), app("slen", src)))
+			c.assumeDef(tForall([][2]string{{"i!r", SInt}}, tEq(app("sat", r, "i!r"),
+				tIte(tEq(app("sat", src, "i!r"), tInt(int64(from))), tInt(int64(to)), app("sat", src, "i!r"))), app("sat", r, "i!r")))
+			return Sc{r, SStr}, st3
+		}
+		c.declareFun("str!replaceAll", []string{SStr, SStr, SStr}, SStr)
 		return Sc{app("str!replaceAll", a.(Sc).T, b.(Sc).T, d.(Sc).T), SStr}, st3
 	})
 	reg("strings.ContainsAny", "whether any byte of the (ASCII) set occurs in s", func(x *Exec, n *ast.CallExpr, recv ast.Expr, st *State) (Val, *State) {
@@ -665,6 +678,10 @@ func init() {
 		no.F["cur"] = Sc{c.define("scancur", SStr, tIte(ok, tSel(o.F["lines"].(Sc).T, pos), "str!empty")), SStr}
 		no.F["pos"] = scInt(c.define("scanpos", SInt, tIte(ok, tAdd(pos, "1"), pos)))
 		no.F["done"] = scBool(tOr(o.F["done"].(Sc).T, tNot(ok)))
+		// views obtained from Bytes() before this Scan are invalidated: their contents become arbitrary
+		for obj, v := range st1.vars {
+			st1.vars[obj] = invalidateScanViews(c, v)
+		}
 		return scBool(ok), x.assignBack(recv, no, st1)
 	})
 	reg("(*bufio.Scanner).Buffer", "sets the maximum token size (the line/fault model of the scanner is a function of the reader; a token-too-long failure is one of the possible faults)", func(x *Exec, n *ast.CallExpr, recv ast.Expr, st *State) (Val, *State) {
@@ -680,9 +697,15 @@ func init() {
 		atEnd := tAnd(o.F["done"].(Sc).T, tEq(o.F["pos"].(Sc).T, o.F["n"].(Sc).T), o.F["fault"].(Sc).T)
 		return scInt(tIte(atEnd, o.F["err"].(Sc).T, errNil)), st1
 	})
-	reg("(*bufio.Scanner).Bytes", "the current line (valid until the next Scan)", func(x *Exec, n *ast.CallExpr, recv ast.Expr, st *State) (Val, *State) {
+	reg("(*bufio.Scanner).Bytes", "the current line as a view into the scanner's buffer: its contents are only valid until the next Scan (afterwards arbitrary)", func(x *Exec, n *ast.CallExpr, recv ast.Expr, st *State) (Val, *State) {
 		ov, st1 := x.eval(recv, st)
-		return x.strAsSeq(ov.(Obj).F["cur"].(Sc).T), st1
+		c := x.c
+		cur := ov.(Obj).F["cur"].(Sc).T
+		// a fresh array named scanbuf!k equal to the line: slices still referring to it are havocked by the next Scan
+		arr := c.fresh("scanbuf", arrSort(SInt, SInt))
+		c.usesStr = true
+		c.assumeDef(tForall([][2]string{{"i!v", SInt}}, tEq(tSel(arr, "i!v"), app("sat", cur, "i!v")), tSel(arr, "i!v")))
+		return Sl{Sc{arr, arrSort(SInt, SInt)}, "0", app("slen", cur), tFalse, types.Typ[types.Uint8]}, st1
 	})
 	reg("(*bufio.Scanner).Text", "the current line", func(x *Exec, n *ast.CallExpr, recv ast.Expr, st *State) (Val, *State) {
 		ov, st1 := x.eval(recv, st)
@@ -690,7 +713,17 @@ func init() {
 	})
 	reg("slices.Clone", "fresh slice with equal contents (nil stays nil)", func(x *Exec, n *ast.CallExpr, recv ast.Expr, st *State) (Val, *State) {
 		v, st1 := x.eval(n.Args[0], st)
-		return v, st1 // value semantics: a clone is indistinguishable
+		s, ok := v.(Sl)
+		if !ok {
+			return v, st1
+		}
+		c := x.c
+		cp := c.freshLike("clone", s).(Sl)
+		cp.Off, cp.Len, cp.Nil = "0", s.Len, s.Nil
+		zipLeaves(cp.Arr, s.Arr, func(nn, o string) {
+			c.assumeDef(tForall([][2]string{{"i!a", SInt}}, tEq(tSel(nn, "i!a"), tSel(o, tAdd("i!a", s.Off))), tSel(nn, "i!a")))
+		})
+		return cp, st1
 	})
 	reg("bytes.HasPrefix", "whether s begins with prefix", func(x *Exec, n *ast.CallExpr, recv ast.Expr, st *State) (Val, *State) {
 		sv, st1 := x.eval(n.Args[0], st)
@@ -965,5 +998,28 @@ func (x *Exec) pureClosure(fl *ast.FuncLit, args []Val, st *State) Val {
 	c.facts = c.facts[:nFacts]
 	c.counts = savedCounts
 	c.notes = append(c.notes, "closure body evaluated as a pure expression (index obligations inside it are discharged by the extern's own range guarantee): "+c.posOf(fl))
+	return v
+}
+
+// invalidateScanViews replaces the array of every slice that still refers to a
+// scanner buffer view (scanbuf!k) by a fresh, unconstrained array.
+func invalidateScanViews(c *Ctx, v Val) Val {
+	switch x := v.(type) {
+	case Sl:
+		if a, ok := x.Arr.(Sc); ok && strings.Contains(a.T, "scanbuf!") {
+			na := c.fresh("stale", a.S)
+			c.facts = append(c.facts, tForall([][2]string{{"i!b", SInt}}, tAnd(tLe("0", tSel(na, "i!b")), tLe(tSel(na, "i!b"), "255")), tSel(na, "i!b")))
+			return Sl{Sc{na, a.S}, x.Off, x.Len, x.Nil, x.Elem}
+		}
+		return x
+	case St:
+		nf := make([]Val, len(x.F))
+		for i := range x.F {
+			nf[i] = invalidateScanViews(c, x.F[i])
+		}
+		return St{nf, x.T}
+	case Pt:
+		return Pt{x.Nil, invalidateScanViews(c, x.Elem), x.T}
+	}
 	return v
 }
